@@ -65,6 +65,12 @@ impl Reporter {
         }
     }
 
+    /// Read-only copy of the merged per-client statistics (verification hook)
+    #[cfg(roughenough_verif)]
+    pub fn merged_client_stats(&self) -> Vec<ClientStats> {
+        self.client_stats.values().copied().collect()
+    }
+
     pub fn receive_client_stats(&mut self) {
         let start = Instant::now();
         let mut num_processed = 0;
